@@ -14,6 +14,9 @@ mod mon_c01;
 mod mon_c02;
 mod mon_c04;
 mod mon_c05;
+mod mon_c06;
+mod mon_c07;
+mod judge;
 mod mon_c08;
 mod mon_c09;
 mod mon_c10;
@@ -146,6 +149,8 @@ fn main() {
         "C02" => mon_c02::run(&mut ctx),
         "C04" => mon_c04::run(&mut ctx),
         "C05" => mon_c05::run(&mut ctx),
+        "C06" => mon_c06::run(&mut ctx),
+        "C07" => mon_c07::run(&mut ctx),
         "C08" => mon_c08::run(&mut ctx),
         "C09" => mon_c09::run(&mut ctx),
         "C10" => mon_c10::run(&mut ctx),
